@@ -1,7 +1,7 @@
 (** * C15 - canary nodes are valid, distinct, stable and as many as requested.
     Property theorems only; each is closed by [exact] of a lemma of [Proofs/]. *)
 From Coq Require Import List ZArith Bool Sorting.Sorted.
-From EDS Require Import Model.Objects Model.Fitness Model.PodSpec Model.Canary Model.EdsLogic Model.EdsReconcile
+From EDS Require Import Model.Objects Model.Fitness Model.PodSpec Model.Default Model.Canary Model.EdsLogic Model.EdsReconcile
      Proofs.Lists Proofs.RollingProofs Proofs.EdsInv Proofs.C15Proofs Proofs.C15Sync.
 Import ListNotations.
 Open Scope Z_scope.
@@ -39,7 +39,9 @@ Theorem C15_no_overshoot : forall t keys nb nodes pods previous, NoDup previous 
 Proof. exact select_no_overshoot. Qed.
 Print Assumptions C15_no_overshoot.
 
-(** ... fewer valid nodes than requested is the error path (no status write, see [update_instance]) and
+(** ... fewer valid nodes than requested is the error path (the shortened list is written with the status - which
+    keeps status.desired, against which a percentage is resolved, fresh - and the reconcile reports the error, see
+    [C15_sync_source] and [C15_sync_short_reports_error]) and
     on success the list has exactly the requested length when the still-valid previous part was not longer. *)
 Theorem C15_error_if_short : forall t keys nb nodes pods previous,
   snd (select_nodes t keys nb nodes pods previous) = false <->
@@ -83,8 +85,9 @@ Theorem C15_sync_source : forall sn pl st' c',
     exists rep nb, ca_replicas cspec = Some rep /\ resolve_iop rep (es_desired (e_status e)) = Some nb /\
       ((nb = zlen prev /\ cs_nodes c' = prev) \/
        (nb <> zlen prev /\
+        exists enough,
         select_nodes (r_tmpl uptodate) (ca_antiaffinity cspec) nb (canary_candidate_nodes sn cspec)
-                     (eds_pods sn e) prev = (cs_nodes c', true)))).
+                     (eds_pods sn e) prev = (cs_nodes c', enough) /\ (enough = false -> ep_error pl = true)))).
 Proof. exact sync_canary_nodes. Qed.
 Print Assumptions C15_sync_source.
 
@@ -106,10 +109,28 @@ Theorem C15_valid_at_selection : forall sn pl st' c',
     st_canary (e_strategy e) = Some cspec /\ cs_rs c' = r_name u /\
     ca_replicas cspec = Some rep /\ resolve_iop rep (es_desired (e_status e)) = Some nb /\
     (forall nn, In nn (cs_nodes c') -> valid_canary_node sn cspec u nn) /\
-    nb <= zlen (cs_nodes c') /\
+    (nb <= zlen (cs_nodes c') \/ ep_error pl = true) /\
     (zlen (cs_nodes c') <= nb \/ incl (cs_nodes c') (status_canary_nodes (e_status e))).
 Proof. exact sync_nodes_valid_at_selection. Qed.
 Print Assumptions C15_valid_at_selection.
+
+(** "if fewer valid nodes exist the reconcile reports an error instead of silently running a smaller canary", for the
+    whole reconcile: whenever the selection for the resolved replicas comes up short, the plan carries the error. *)
+Theorem C15_sync_short_reports_error : forall sn pl e uptodate current rq cspec rep nb,
+  eds_sync sn = Ok pl -> es_obj sn = Some e -> is_defaulted e = true ->
+  last_such (rs_up_to_date e) (rs_of_eds e (es_rss sn)) = Some uptodate ->
+  select_current (e_annots e) (st_canary (e_strategy e))
+                 (last_such (fun r => N.eqb (r_name r) (es_active (e_status e))) (rs_of_eds e (es_rss sn)))
+                 uptodate (es_now sn) = (current, rq) ->
+  st_canary (e_strategy e) = Some cspec ->
+  canary_failed_rs (r_status uptodate) = false -> N.eqb (r_name current) (r_name uptodate) = false ->
+  ca_replicas cspec = Some rep -> resolve_iop rep (es_desired (e_status e)) = Some nb ->
+  nb <> zlen (status_canary_nodes (e_status e)) ->
+  snd (select_nodes (r_tmpl uptodate) (ca_antiaffinity cspec) nb (canary_candidate_nodes sn cspec)
+                    (eds_pods sn e) (status_canary_nodes (e_status e))) = false ->
+  ep_error pl = true.
+Proof. exact short_selection_error. Qed.
+Print Assumptions C15_sync_short_reports_error.
 
 (** The full statement "each name refers to a valid node WHILE THE CANARY IS ACTIVE" is false of the
     code: the list is re-selected only when its length differs from the resolved replicas, so a canary
